@@ -38,7 +38,7 @@ import os
 import re
 
 from fvlib.core import (CFG, CallGraph, arm_regions, assignments, bool_consumers, call_blocks, calls, callee_matches,
-                        callee_name, describe, leaves, parent_fn, root_of, short, site_guard, switch_arms)
+                        callee_name, converts_to, describe, leaves, parent_fn, root_of, short, site_guard, switch_arms)
 from fvlib import tables, vm
 
 TABLE = os.path.join(os.path.dirname(os.path.dirname(os.path.abspath(__file__))), "tables", "C29_bug_sites.json")
@@ -308,8 +308,9 @@ def run(F, rep, tier, allfacts):
             mk = {}
             for var, blocks in arms.items():
                 a = {s[2][2] for bb in blocks for s in f["bbs"][bb]["s"] if s[0] == "=" and s[2][0] == "agg" and s[2][1].endswith("::InterpreterError")}
-                c_ = {callee_name(f["bbs"][bb]["t"][1]) for bb in blocks if f["bbs"][bb]["t"][0] == "call" and "def" in f["bbs"][bb]["t"][1]}
-                mk[var] = (a, {x for x in c_ if "From<" in x and "InterpreterError" in x})
+                c_ = {callee_name(f["bbs"][bb]["t"][1]) for bb in blocks if f["bbs"][bb]["t"][0] == "call" and "def" in f["bbs"][bb]["t"][1]
+                      and (converts_to(f["bbs"][bb]["t"][1], r"InterpreterError") or ("From<" in callee_name(f["bbs"][bb]["t"][1]) and "InterpreterError" in callee_name(f["bbs"][bb]["t"][1])))}
+                mk[var] = (a, c_)
             okc = mk.get("Recoverable", (set(), set()))[0] == {"PanicInstruction"} and len(mk) >= 2 and all("PanicInstruction" not in v[0] and v[1] for k, v in mk.items() if k != "Recoverable")
             rep.sample({"from_runtime": {k: [sorted(v[0]), sorted(v[1])] for k, v in mk.items()}})
     rep.check(okc, "CLASS-errors", "from_runtime:Recoverable->PanicInstruction;rest->From", where, "from_runtime must wrap only Recoverable reasons into PanicInstruction and convert the rest with From<RuntimeError>")
